@@ -12,6 +12,13 @@ the modelled part is logic, not data):
            arguments, against the heap interpreter `Bind.hexec` (reference semantics; also the callee ENTRY contexts);
   * probe— event-driven privacy programs (instances that wait, are resumed later and emit their variables) and
            aliasing programs (in-place `append`/`update` on a passed list/dict); oracle only.
+  * act  — (kind probe) the same flow activated 2-7 times while the earlier activations are alive (explicit / omitted /
+           equal / different arguments in every order, `start` calls in between, two callers, Ping rounds with restarts):
+           for every call some instance echoes exactly the call's parameter values; oracle only.
+  * ref  — the real `_get_reference_activated_flow_instance` and the real StartFlow branch of
+           `_process_internal_events_without_default_matchers` on states assembled by the real constructor functions,
+           against `Bind.refActivated` / `Bind.startDecision` / `Bind.activateStepEv`.
+  * loop — (kind probe) a call statement reached once per iteration of a `while` loop; oracle only.
 Oracle (independent of the Lean model): `spec_run`, a direct transcription of the property statement — parameter i gets
 positional i, else the named argument, else the declared default, else None; `$x = await f` assigns the value of the
 `return` expression; an assignment touches only the assigning instance (or the global context when declared global).
@@ -39,6 +46,11 @@ RULE = ("fn: signature of 0-5 parameters (each with/without default; defaults of
         "dict, dict of list, set; same default text in several flows) mutated by expression statements, called 2-6 times with the argument omitted / "
         "positional / named by await/start/activate, return values kept and re-emitted; 15% pass container variables (finding region). "
         "restart probes: activated flow that finishes and restarts, default mutated in place or re-assigned, argument omitted or supplied. "
+        "act probes: 1-2 flows of 1-3 parameters activated/started 2-7 times while earlier activations live (per call every parameter positional / named / omitted, values from "
+        "small pools containing the declared default, orders mixed / explicit-then-omitted / omitted-then-explicit, caller variables as arguments, second caller flow, instance "
+        "re-assigning a parameter, Ping rounds with restart). ref: 0-4 running instances (creating call arbitrary, counter 0/1/2, parent main/gone/None/same flow) x query call "
+        "(incl. clash, activated True/1/False/missing) x source main/child/done, values incl. Python-equal ones of different type and reordered dicts/sets. loop probes: while loop of "
+        "2-4 iterations around await-with-capture / start / activate with arguments depending on the loop variable. fn-big: signatures of 10-13 parameters. "
         "non-trivial = at least one parameter "
         "bound from an argument or default (fn) / at least one call with arguments or a return value (e2e, probe); "
         "distinct = distinct case JSON.")
@@ -52,7 +64,8 @@ ASSUMPTIONS = [
     "programs that mutate in place run in a forked child of the worker (process-wide state of the code under test cannot leak between cases); emitted events are observed with the values they have at emission (deep copy on append to state.outgoing_events); callee entry contexts are snapshots taken by a wrapper around `_start_flow`",
     "user variables do not start with `_` (the expansion's hidden `_ref_…`/`_event_ref_…` variables live in the same context); parameter names are identifiers, never `$<digits>`",
     "e2e fragment: callee bodies run synchronously to their end or to `match Never()` (the event queue is abstracted; the FlowStarted / FlowFinished matches of a call go through the C04 matcher model, pattern evaluated at match time); defaults are evaluated once per call in the empty context",
-    "modelled by hand: create_flow_instance, _start_flow, slide branches Assignment/Global/Return, _get_eval_context + `$var` lookup of eval_expression, FlowState.finished_event/_create_out_event, the expansion shape of `$x = await f(..)`",
+    "modelled by hand: create_flow_instance, _start_flow, slide branches Assignment/Global/Return, _get_eval_context + `$var` lookup of eval_expression, FlowState.finished_event/_create_out_event, the expansion shape of `$x = await f(..)`, _get_reference_activated_flow_instance and the StartFlow branch of _process_internal_events_without_default_matchers (decision only: the FlowStarted hand-shake of a call served by a running activation, child lists and deactivation counters are not modelled)",
+    "ref stream: the state is assembled by the real create_flow_instance/add_new_flow_instance/_start_flow and then `activated` / `parent_uid` of the instances are set directly (the attributes the lookup reads); activation probes: `==` on the generated values is type-exact (no 0/1/1.0), an activate with positional arguments served by an activation created with fewer positionals leaves its caller waiting (observed, outside the statement): the oracle stops at that call",
 ]
 EXHAUSTIVE = {"quick": True, "thorough": True}
 
@@ -1090,6 +1103,7 @@ def gen_cases(rng, tier):
     global _TIER
     _TIER = tier
     n_fn, n_e2e, n_probe = (5000, 300, 60) if tier == "quick" else (200000, 10000, 1000)
+    n_act, n_ref, n_loop = (300, 1250, 120) if tier == "quick" else (3000, 25000, 1000)
     cases = enum_fn_shapes(3)
     cases += [g_fn(rng) for _ in range(n_fn)]
     cases += [g_fn_big(rng) for _ in range(n_fn // 50)]
@@ -1099,9 +1113,9 @@ def gen_cases(rng, tier):
     cases += [g_probe(rng) for _ in range(n_probe)]
     cases += [g_when_probe(rng) for _ in range(2 * n_probe)]
     cases += [g_restart_probe(rng) for _ in range(n_probe)]
-    cases += [g_act_probe(rng) for _ in range(5 * n_probe)]
-    cases += [g_ref(rng) for _ in range(n_fn // 4)]
-    cases += [g_loop_probe(rng) for _ in range(2 * n_probe)]
+    cases += [g_act_probe(rng) for _ in range(n_act)]
+    cases += [g_ref(rng) for _ in range(n_ref)]
+    cases += [g_loop_probe(rng) for _ in range(n_loop)]
     return cases
 
 
@@ -2097,6 +2111,10 @@ def escalate(rng, focus, tier):
     cases += [c for c in (g_probe(rng) for _ in range(300)) if not c["tmpl"].startswith("inplace-")]
     cases += [g_hist(rng) for _ in range(600)]
     cases += [c for c in (g_restart_probe(rng) for _ in range(200)) if "-reassign-" in c["tmpl"]]
+    cases += [g_act_probe(rng) for _ in range(400)]
+    cases += [g_ref(rng) for _ in range(3000)]
+    cases += [g_loop_probe(rng) for _ in range(150)]
+    cases += [g_fn_big(rng) for _ in range(300)]
     return cases
 
 
